@@ -318,6 +318,11 @@ def hand_corpus():
     S("HChunkThenCaseChunk", chunked(field("kind", "char"), brk(), field("a", "string"), brk()), switch("kind", "char", case(1, chunked(field("q", "string"), brk(), field("r", "string")))))
     S("HHardElem", field("", "char", hard=7), field("x", "char"))
     S("HArrHardElem", field("n", "char"), array("es", "HHardElem"))
+    # round 8: a numeric <case> label on an enum switch that the value domain reaches (the model's unrecognized ordinal is 7)
+    S("HSwitchEnumNum", field("col", "Color"), switch("col", "Color", case("Red", field("r", "char")), case(7, field("u", "short")), case(None, field("s", "string"), default=True)))
+    # round 8: counts beyond 256 need a wider length field
+    S("HDelimSepShort", chunked(length("n", "short"), array("names", "string", length="n", delimited=True, trailing=False), brk(), field("z", "char"), field("motd", "string")))
+    S("HArrShortLen", length("n", "short"), array("xs", "char", length="n"), field("z", "char"))
     # round 7: a positive offset on a char-sized length (the largest count is limit + offset)
     S("HLenOffChar", length("n", "char", offset=2), array("xs", "char", length="n"), field("z", "char"))
     # round 6: objects without instructions (the generated serialize() had an empty try block: fix f2d221e)
